@@ -596,6 +596,8 @@ def _puppet_beh(a, u, life_dur):
         beh["on_term"] = "ignore"
     else:
         beh["on_term"] = f"late:{ot[1] * u}"
+        if ot[0] == "late_ok":
+            beh["term_exit"] = 0
     if not a.get("stops", True):
         beh["tstp"] = "ignore"
     if a.get("hold"):
@@ -625,7 +627,8 @@ def life_coq_case(sc, unicast=True):
     behs = []
     for a in sc["attempts"]:
         ot = a.get("on_term", "exit")
-        react = {"exit": "OnTermExit", "ignore": "OnTermIgnore"}.get(ot) if isinstance(ot, str) else f"(OnTermLate {ms(ot[1], u)})"
+        react = {"exit": "OnTermExit", "ignore": "OnTermIgnore"}.get(ot) if isinstance(ot, str) else \
+            f"({'OnTermLateOk' if ot[0] == 'late_ok' else 'OnTermLate'} {ms(ot[1], u)})"
         behs.append(f"{{| b_dur := {ms(a['dur'], u)}; b_exit_ok := {vlib.coq_bool(a.get('exit', 0) == 0)}; "
                     f"b_on_term := {react}; b_hold := {ms(a.get('hold', 0), u)}; "
                     f"b_stops := {vlib.coq_bool(a.get('stops', True))} |}}")
